@@ -62,6 +62,8 @@ type thread struct {
 type shadow struct {
 	buf    []any
 	closed bool
+	keep   any // the real channel: keeps it reachable so that its address (the shadow's key) cannot be recycled by the
+	// garbage collector for another channel made later in the same execution
 }
 
 // Point is one choice point of an execution.
@@ -568,7 +570,13 @@ func Env(name string, n int) int {
 
 func chanID(ch any) (uintptr, int) {
 	v := reflect.ValueOf(ch)
-	return v.Pointer(), v.Cap()
+	id := v.Pointer()
+	if s, t := cur(); s != nil && t != nil {
+		if x := s.sh(id); x.keep == nil {
+			x.keep = ch
+		}
+	}
+	return id, v.Cap()
 }
 
 // Send is `ch <- v`.
